@@ -400,7 +400,7 @@ def main(argv=None):
     def tasks():
         i = args.start
         while nruns is None or i < args.start + nruns:
-            yield {'index': i}
+            yield {'index': i, 'want_run': i < args.start + 3}
             i += 1
 
     def on_result(res):
